@@ -55,6 +55,8 @@ EXPLANATION = (
     "R3, the reserved names / name parts of check_vname in R6, local or module level): no element is an implicit concatenation of "
     "adjacent string literals (a lost comma merges two entries into one that matches nothing); decided on the token stream of the "
     "element's source extent, with a synthetic positive control on every run.  "
+    "R4 scope: a look-up in a private helper without any effect (engine effect summaries) is listed as a read-only query - what its "
+    "callers do with the answer is not followed.  "
     "NOT decided: which names belong in the reserved list, message quality, errors raised by third-party libraries, loudness of "
     "edges with missing endpoints (they fail with KeyError in look-ups that are not modelled; the _verify_path obligations of the "
     "design are listed as information only because removing them does not make the template route silent), the Julia/Matlab bridges."
@@ -593,6 +595,42 @@ def _only_while_raising(ctx, f, depth=0) -> bool:
     if not sites:
         return False
     return all(_in_raise(c) or _only_while_raising(ctx, g, depth + 1) for g, c in sites)
+
+
+def _fresh_local(f, name: str) -> bool:
+    """`name` is only ever bound to a fresh container display / constructor in `f` (a store into it does not outlive the call)."""
+    if name in f.params:
+        return False
+    defs = [p_ for p_ in (parent(n) for n in _stores(f, name))]
+    return bool(defs) and all(isinstance(d, ast.Assign) and isinstance(d.value, (ast.Dict, ast.List, ast.Set, ast.ListComp, ast.DictComp, ast.SetComp))
+                              or (isinstance(d, ast.Assign) and isinstance(d.value, ast.Call) and isinstance(d.value.func, ast.Name)
+                                  and d.value.func.id in ("dict", "list", "set") and not d.value.args) for d in defs)
+
+
+def _effect_free(ctx, f) -> bool:
+    """No mutation of anything that outlives the call, by the engine's interprocedural effect summaries (every variant)."""
+    for n in walk_shallow(f.node):          # cheap syntactic screen before the (expensive, lazily built) effect summaries
+        tgts = n.targets if isinstance(n, (ast.Assign, ast.Delete)) else ([n.target] if isinstance(n, (ast.AugAssign, ast.AnnAssign)) else [])
+        if any(isinstance(t, (ast.Attribute, ast.Subscript)) and not (isinstance(t.value, ast.Name) and _fresh_local(f, t.value.id))
+               for t in tgts for t in ([t] if not isinstance(t, (ast.Tuple, ast.List)) else t.elts)):
+            return False
+    eff = ctx.effects
+    for v in eff.variants(f):
+        if eff.mut.get((f, v)) or eff.gmut.get((f, v)) or eff.events_of(f, v):
+            return False
+    return True
+
+
+def _loop_source(it: ast.AST) -> ast.AST:
+    """the sequence a loop runs over: through enumerate()/reversed() and order-keeping copies"""
+    while True:
+        if isinstance(it, ast.Call) and isinstance(it.func, ast.Name) and it.func.id in ("enumerate", "reversed", "iter") and it.args:
+            it = it.args[0]
+            continue
+        inner = _copy_source(it)
+        if inner is None:
+            return it
+        it = inner
 
 
 def _only_called_from(ctx, f, contexts, depth=0) -> set:
@@ -1376,8 +1414,10 @@ def _callers_guard(ctx, rid, h, true_names, flag, depth=0):
     call of `h` covered by a flag test in the caller (seen with the caller's other private helpers spliced in)?
     -> (covered, description of where)."""
     from engine.inline import inlined
-    sites = ctx.cg.call_sites_of(h) if _is_private(h) else []
-    if not sites or depth > 1:
+    # every call site the call graph knows (an emitter of the code generator is a public method of the backend, called by the
+    # compute graph only; a function nobody calls is not covered by anything)
+    sites = [(g, c) for g, c in ctx.cg.call_sites_of(h) if g != h]
+    if not sites or depth > 3:
         return False, ""
     wheres = []
     for g in sorted({g for g, _ in sites}, key=lambda x: x.qual):
@@ -1781,7 +1821,7 @@ def _r4_lift(ctx, rid, f, pos, must_raise, depth, via):
     return None
 
 
-def _r4_follow(ctx, rid, f, st, r, must_raise, depth=0):
+def _r4_follow(ctx, rid, f, st, r, must_raise, depth=0, starts=None):
     """Under the assumption that the local `r` (bound at `st`) is empty: a witness (function, path, how) of a silent continuation,
     or None when every continuation passes a reporter.  A private helper that hands `r` back to its callers is followed there."""
     from engine.dataflow import stmt_defs
@@ -1803,10 +1843,10 @@ def _r4_follow(ctx, rid, f, st, r, must_raise, depth=0):
         if _is_private(f) and ctx.cg.call_sites_of(f) else {}
 
     def goal(x):
-        return x is cfg.EXIT or (isinstance(x, (ast.stmt, ast.ExceptHandler)) and r in stmt_defs(x))
+        return x is cfg.EXIT or x is st or (isinstance(x, (ast.stmt, ast.ExceptHandler)) and r in stmt_defs(x))
     env = assume(ctx, f, **{r: Len(0)})
     eok = _raise_edge_ok(ctx, f)
-    starts = list(cfg.g.successors(st))
+    starts = list(cfg.g.successors(st)) if starts is None else starts
     verdict, w = decide_silent(cfg, starts, goal, lambda x: reporter(x) or id(x) in hands_back, env, (r,), eok)
     if verdict == "undecided":
         raise AnalysisError(f"{rid}: {f.qual}: cannot evaluate `{ast.unparse(w.test) if w is not None else '?'}` for an empty `{r}` "
@@ -1861,6 +1901,11 @@ def r4_empty_selection_reported(ctx, rid):
             ctx.info(rid, f, stmt_of(ctx.cfg(f), call), "look-up made while composing the message of an exception that is raised "
                                                         "regardless of its result: nothing can be silently dropped here")
             continue
+        if _is_private(f) and ctx.cg.call_sites_of(f) and _effect_free(ctx, f):
+            ctx.info(rid, f, stmt_of(ctx.cfg(f), call), f"read-only helper: {f.qualname} changes nothing (no store, no mutating call on its arguments, "
+                                                        f"module state or anything reachable from them), so it cannot apply or drop an input / "
+                                                        f"update; it only answers its caller")
+            continue
         qs = _only_called_from(ctx, f, R4_QUERIES)
         if qs:
             ctx.info(rid, f, stmt_of(ctx.cfg(f), call), f"look-up extracted from the quer{'y' if len(qs) == 1 else 'ies'} {', '.join(sorted(qs))}: "
@@ -1875,6 +1920,10 @@ def r4_empty_selection_reported(ctx, rid):
         if isinstance(st, ast.Return) and st.value is not None and _result_position(st.value, lambda e: e is call) is not None:
             r = "<returned>"
             wit = _r4_lift(ctx, rid, f, _result_position(st.value, lambda e: e is call), must_raise, 0, [st])
+        elif isinstance(st, (ast.For, ast.AsyncFor)) and _loop_source(st.iter) is call:
+            # the result is iterated directly: an empty selection skips the loop body
+            r = "<iterated>"
+            wit = _r4_follow(ctx, rid, f, st, r, must_raise, starts=succ(cfg, st, "done"))
         else:
             r = _bound_name(rid, f, st, call, ())
             wit = _r4_follow(ctx, rid, f, st, r, must_raise)
